@@ -138,6 +138,7 @@ type Result struct {
 	Trace      []string
 	Nondet     string // non-empty: replay diverged (engine error)
 	Defaults   []string
+	Wire       []string // wire tap rendering, set by scenarios (replay files)
 }
 
 // Exec is the state of the current execution.
@@ -864,6 +865,13 @@ func Fail(key, format string, a ...any) {
 		return
 	}
 	ex.res.Violations = append(ex.res.Violations, Violation{Key: key, Msg: fmt.Sprintf(format, a...)})
+}
+
+// SetWire stores a rendering of the wire history for replay artefacts.
+func SetWire(lines []string) {
+	if ex != nil && ex.cfg.Verbose {
+		ex.res.Wire = lines
+	}
 }
 
 // Threads returns the live (not exited) threads other than the root.
